@@ -1,6 +1,8 @@
 import BFL.Model.KF
+import BFL.Model.KFLik
 import BFL.Bridge.Mat
 import BFL.Proofs.KF
+import BFL.Props.C15
 /-
 C01 — Kalman correction returns the exact linear-Gaussian Bayes posterior.
 
@@ -119,6 +121,40 @@ theorem kf_correct_posterior (inv : Mat ℝ m m → Mat ℝ m m) (H : Mat ℝ m 
             ((toM (b.cov i))⁻¹ *ᵥ toV (b.mean i) + ((toM H)ᵀ * (toM R)⁻¹) *ᵥ toV y) :=
   ⟨(kf_cov_information inv H (b.cov i) R (hP i) hR (hinv i)).1,
    kf_mean_information inv H (b.cov i) R y (b.mean i) (hP i) hR (hinv i)⟩
+
+/-- The likelihood reported for component `i` (`KFCorrection::getLikelihood`, model `kfLikelihood`:
+    the density of the stored innovation under `N(0, S_i)`) is the Gaussian density
+    `N(y; H m_i, H P_i Hᵀ + R)`: the same model density evaluated at `y` with mean `H m_i`, and in
+    closed form `exp(−½ (m log 2π + log det S + (y − H m)ᵀ S⁻¹ (y − H m)))`, with `det S > 0`
+    (the logarithm is defined) and `S` invertible.  `invD` is the inverse routine of the density
+    code (contract `InvOK` on `S`). -/
+theorem kf_likelihood_eq (invD : InvFn ℝ) (H : Mat ℝ m n) (R : Mat ℝ m m) (y : Vec ℝ m) (b : GM ℝ n k) (i : Fin k)
+    (hP : (toM (b.cov i)).PosSemidef) (hR : (toM R).PosDef) (hinv : InvOK invD (kfS H (b.cov i) R)) :
+    kfLikelihood invD H R y b i
+        = density invD (colBatch y) (H.mulVec (b.mean i)) (kfS H (b.cov i) R) 0 ∧
+    0 < (toM (kfS H (b.cov i) R)).det ∧ IsUnit (toM (kfS H (b.cov i) R)) ∧
+    kfLikelihood invD H R y b i
+        = Real.exp (-(1 / 2) * ((m : ℝ) * Real.log (2 * Real.pi) + Real.log (toM (kfS H (b.cov i) R)).det
+            + (toV y - toM H *ᵥ toV (b.mean i)) ⬝ᵥ
+                ((toM (kfS H (b.cov i) R))⁻¹ *ᵥ (toV y - toM H *ᵥ toV (b.mean i))))) := by
+  have hS := kf_S_posDef H (b.cov i) R hP hR
+  have hd1 : dcol (colBatch (kfInnovation H y (b.mean i))) Vec.zero 0 = toV y - toM H *ᵥ toV (b.mean i) := by
+    ext j
+    have := congrFun (toV_mulVec H (b.mean i)) j
+    simp only [toV_apply] at this
+    simp [dcol, colBatch, kfInnovation, this]
+  have hd2 : dcol (colBatch y) (H.mulVec (b.mean i)) 0 = toV y - toM H *ᵥ toV (b.mean i) := by
+    ext j
+    have := congrFun (toV_mulVec H (b.mean i)) j
+    simp only [toV_apply] at this
+    simp [dcol, colBatch, this]
+  have e1 : kfLikelihood invD H R y b i
+      = Real.exp (logDensity invD (colBatch (kfInnovation H y (b.mean i))) Vec.zero (kfS H (b.cov i) R) 0) := rfl
+  have e2 : density invD (colBatch y) (H.mulVec (b.mean i)) (kfS H (b.cov i) R) 0
+      = Real.exp (logDensity invD (colBatch y) (H.mulVec (b.mean i)) (kfS H (b.cov i) R) 0) := rfl
+  refine ⟨?_, hS.1.det_pos, hS.2, ?_⟩
+  · rw [e1, e2, logDensity_formula invD _ _ _ hinv, logDensity_formula invD _ _ _ hinv, hd1, hd2]
+  · rw [e1, logDensity_formula invD _ _ _ hinv, hd1]
 
 /-- Non-vacuity: the hypotheses are jointly satisfiable for every PD pair — Mathlib's own inverse
     meets the contract `InvOn` — and a concrete PD instance exists (n = m = 1, P = 2, R = 3). -/
